@@ -358,10 +358,18 @@ def xa_expr(n, exp, cte_names):
 
 def x_gselect(sel, exp, prev_name, cte_names):
     """a SELECT with GROUP BY / aggregates -> [SG ...] (+ [SB pass-block carrying ORDER BY / LIMIT])"""
-    allowed = {"expressions", "from", "where", "group", "order", "limit", "with", "kind"}
+    allowed = {"expressions", "from", "where", "group", "having", "order", "limit", "with", "kind"}
     for k, v in sel.args.items():
         if v and k not in allowed:
             raise rel.NotExportable(f"grouped select arg {k}")
+    having = sel.args.get("having")
+    if having is not None:
+        h = having.this
+        ok = (isinstance(h, exp.GT) and isinstance(h.this, exp.Count) and isinstance(h.this.this, exp.Star)
+              and not h.this.args.get("expressions") and isinstance(h.expression, exp.Literal)
+              and not h.expression.is_string and h.expression.this == "0")
+        if not ok:
+            raise rel.NotExportable("HAVING other than COUNT(*) > 0")
     frm = sel.args.get("from")
     if frm is None or not isinstance(frm.this, exp.Table) or frm.this.name != prev_name:
         raise rel.NotExportable(f"FROM is not the previous CTE ({prev_name})")
@@ -399,7 +407,7 @@ def x_gselect(sel, exp, prev_name, cte_names):
             items.append(f"(SAgg {xa_expr(body, exp, cte_names)}, {strlit(name)})")
         else:
             items.append(f"(SKey {rel.x_expr(body, exp, cte_names)}, {strlit(name)})")
-    out = [f"(SG (mkG {listlit(ws)} {clause} {listlit(items)}))"]
+    out = [f"(SG (mkG {listlit(ws)} {clause} {listlit(items)} {core.boollit(having is not None)}))"]
     order, lim = sel.args.get("order"), sel.args.get("limit")
     if order or lim:
         ks = []
@@ -1026,7 +1034,8 @@ def run(ctx: core.Ctx):
     })
     ctx.assumptions += [
         "C06.Agg.eval_gblock is my definition of DuckDB's evaluation of SELECT ... GROUP BY / GROUPING SETS on the emitted fragment "
-        "(NULL groups with NULL; the empty grouping set yields one row even on no input); validated by T3 only",
+        "(NULL groups with NULL; the empty grouping set yields one row even on no input, which HAVING COUNT(*) > 0 removes); "
+        "validated by T3 only",
         "a grouped SELECT with ORDER BY/LIMIT over output names equals sorting/limiting the grouped result (the exporter splits it so)",
         "C06.Agg.spec_agg / spec_cube / AggNames.spark_* are my definitions of PySpark's meaning, validated against PySpark 3.5.9 "
         "recordings (oracle/c06_pyspark.jsonl) on every run",
